@@ -206,7 +206,8 @@ Inv_OracleConsistent == /\ ~(MustReject(es, L) /\ MustAccept(es, L))
                         /\ DontCare(es, L) => (ClCount(es, L) /\ ~SizeReject(es, L))
 
 (* ------------------------------------------------------------------ PART 3: protocol *)
-SanctionedSites == {"open_zipfile", "validate_zip_bytesio", "ZipContext"}
+\* sites a recorder reports: "open_zipfile", "validate_zip_bytesio", "ZipContext" (the sanctioned helpers),
+\* "openpyxl", "archive" (archive_extractor: plain archives, outside the property), "foreign" (anything else)
 Obj(d, site, st) == [d |-> d, site |-> site, st |-> st]
 
 \* The monitor predicate, shared with ZipGuardTrace: a member of object o may be decompressed iff
